@@ -12,7 +12,18 @@ ASSUMPTIONS = ["geometry commutes with per-dimension affine maps over every orde
 TRUSTED = ["harness/relational.py, harness/algo_cases.py", "lean/PyXABModel/Drv"]
 
 
+# directed groups: a sampling algorithm that walks down to cells of zero width (the default depth cap) on boxes whose images
+# are far from the origin: whatever depends on the absolute position of a cell at float resolution shows here
+DIRECTED = [
+    ("VROOM", {"kind": "binary", "K": 2, "d": 2, "bmode": "unit", "qmode": "half", "T": 30, "params": {"n": 128, "h_max": 100, "b": 1.0, "f_max": 1.0}}),
+    ("VROOM", {"kind": "binary", "K": 2, "d": 3, "bmode": "shift", "qmode": "half", "T": 20, "params": {"n": 256, "h_max": 160, "b": 1.0, "f_max": 2.0}}),
+    ("DOO", {"kind": "binary", "K": 2, "d": 2, "bmode": "unit", "qmode": "half", "T": 150, "rmode": "corner", "params": {"n": 150, "delta_c": 1.0, "delta_g": 0.5, "delta_kind": "zero"}}),
+]
+
+
 def _grp(args):
+    if len(args) == 4:
+        return GROUP(args[0], args[1], args[2], directed=args[3])
     seed, idx, algo = args
     return GROUP(seed, idx, algo)
 
@@ -31,7 +42,7 @@ def budget(tier):
 
 
 def explore(tier, seed, n):
-    cases = run_groups([(seed + 1600, i, a) for a in ALGOS for i in range(n)])
+    cases = run_groups([(seed + 1600, 880000 + j, a, f) for j, (a, f) in enumerate(DIRECTED)] + [(seed + 1600, i, a) for a in ALGOS for i in range(n)])
     mism, n_ops = fw.compare(cases)
     return {"cases": cases, "mism": mism, "n_ops": n_ops}
 
